@@ -9,7 +9,7 @@ TARGETS = [M]
 THEOREMS = [(M, "NQ.C19." + n) for n in [
     "step_valid", "choice_allowed", "progress", "expand_isSome", "expand_run", "sum_inv", "run_steps",
     "simplify_sound", "fields_fit", "finish_keeps_all", "result_within", "result_within_radians",
-    "spec_within", "accepts_sound", "rotation_pair", "rotation_sum"]]
+    "spec_within", "accepts_sound", "float_error_bound", "result_within_float", "emitted_operands", "emitted_within", "rotation_pair", "rotation_sum"]]
 TRANSLATORS = []
 LEVEL_TEXT = (
     "Lean theorems over exact dyadic values (every double is one) read in any ordered field: for EVERY run of the "
@@ -24,11 +24,14 @@ LEVEL_TEXT = (
     "equal the model's output (or be an accepted neighbouring-exponent run). Oracle: Fraction arithmetic with a "
     "60-digit pi on the real outputs.")
 LEVEL_NOTE = (
-    "PARTIAL (labelled): the three floating-point operations before the loop (angle % 2pi, angle/pi, tol/pi) are "
-    "outside the theorems; the model starts from the doubles the code holds after them (replicated in the harness). "
-    "For |angle| > tol*2^53 the argument reduction in binary64 cannot meet tol (the double's own spacing exceeds it); "
-    "the oracle allows |angle|*2^-53 + 2^-48 rad of rounding slack. Trusted: exactness of the binary64 loop body "
-    "(n/2^d representable, subtraction exact), angle-addition formulas, Lean kernel, harness.")
+    "The three floating-point operations before the loop (angle % 2pi, angle/pi, tol/pi) enter the theorem "
+    "result_within_float as hypotheses of the standard IEEE-754 model (np.pi within relative 2^-53 of pi, fmod exact up "
+    "to the one rounded add-back for negative angles, one correctly rounded division each) and yield the explicit bound |angle - 2 pi k - sum| <= tol(1+4u) + "
+    "8 pi u (1+u) + 2|k| u pi, u = 2^-53; the harness re-checks each hypothesis with exact rationals on every case. "
+    "PARTIAL (labelled): those hypotheses are validated per case, not proved about CPython/libm; for |angle| > "
+    "tol*2^52 the bound exceeds tol (the double's own spacing does). The builder path is modelled as one "
+    "(set Q0; rot) pair per step (emitSpec) and compared command by command. Trusted: exactness of the binary64 loop "
+    "body (n/2^d representable, subtraction exact), angle-addition formulas, Lean kernel, harness.")
 TECHNIQUE = ("Lean 4 proof (invariant + well-founded recursion over exact dyadic rationals, relation-style model) "
              "+ differential correspondence through a proved-sound acceptance checker + exact-rational oracle")
 TRUSTED = [
@@ -39,7 +42,8 @@ TRUSTED = [
     "angle-addition formulas for (cos, sin) pairs (standard trigonometry, not re-proved)",
 ]
 ASSUMPTIONS = [
-    "the rounding of `angle % 2pi`, `angle / pi` and `tol / pi` (once, before the loop) is outside the theorems",
+    "IEEE-754 model of `angle % 2pi` (exact fmod), `angle / pi`, `tol / pi`, `np.pi` — hypotheses of "
+    "result_within_float, re-checked with exact rationals on every case",
     "tolerances in [1e-9, 1e-1] as in the property (theorem needs tol/pi >= 2^-247)",
     "NaN and infinities are outside the property (the real code returns [] for them)",
 ]
@@ -105,8 +109,12 @@ def run(ctx):
             res.count("neighbouring-exponent-run")
         else:
             res.count("equal-to-exact-choice")
+        _, hyp_bad = H.float_model(a, tol)
+        if hyp_bad:
+            res.disagreements.append({"stream": "angle.float-model (hypotheses of result_within_float)", "input": inp,
+                                      "model": "IEEE-754 round-to-nearest, exact fmod", "code": hyp_bad})
         bad = H.oracle(a, tol, out)
-        if H.slack(a) > tol:
+        if H.slack(a, tol) > tol:
             res.count("argument-reduction-dominated")
         if bad:
             res.failures.append({"what": bad, "kf": None, "input": {**inp, "returned": code}})
@@ -122,28 +130,68 @@ def run(ctx):
             res.failures.append({"what": "rotation steps returned for a non-finite angle", "kf": None,
                                  "input": {"angle": repr(a), "returned": [list(p) for p in out]}})
 
-    # ---- builder path: one rotation instruction per step, operands (n, d)
-    n_b = 300 if ctx.thorough else 40
-    bcases = [("X", 0.3), ("Z", -1e-20), ("Y", 2e-4), ("X", 2 * math.pi), ("Z", 0.0)]
-    while len(bcases) < n_b:
-        bcases.append((rng.choice("XYZ"), H.random_angle(rng)))
-    for (axis, a), (kind, rots) in zip(bcases, H.builder_rotations(bcases)):
+    # ---- builder path, judged over the SAME angle stream as the toolbox function: what `q.rot_X/Y/Z(angle=…)`
+    # really EMITS (pending commands of the real builder) vs the angle (oracle) and vs the model (`emitSpec`)
+    tol0 = H.default_tol()
+    fb = H.FastBuilder()
+    bangles = [2e-4, -1e-20, 0.3, 1.0002e-4, math.pi / 4 + 1.0003e-4, -math.pi / 2 + 1.0002e-4,
+               5 * math.pi + 1.0003e-4]                                     # corpus (incl. seeded-change witnesses)
+    bangles += H.near_tol_angles(tol0) + structured
+    bangles += [a for a, _ in cases[len(cases) - n_random:][: (20000 if ctx.thorough else 3000)]]
+    for _ in range(20000 if ctx.thorough else 3000):
+        bangles.append(H.random_near_tol(rng, tol0))
+    emitted, breqs, bacc = [], [], []
+    for i, a in enumerate(bangles):
+        axis = H.AXES[i % 3]
+        kind, cmds = fb.emit(axis, a)
+        emitted.append((axis, kind, cmds))
+        e, r, t = H.exact_inputs(a, tol0)
+        breqs.append({"op": "angle.emit", "E": e, "r": r, "t": t, "axis": i % 3, "vq": fb.vq})
+        rots = [[c[3], c[4]] for c in cmds if c[0] == "rot"] if kind == "ok" else []
+        okshape = all(isinstance(n, int) and isinstance(d, int) and n >= 0 and d >= 0 for n, d in rots)
+        bacc.append({"op": "angle.accepts", "E": e, "r": r, "t": t, "l": rots if okshape else [[0, 0]]})
+    bmodel = ctx.driver.batch(breqs)
+    baccepted = ctx.driver.batch(bacc)
+    for a, (axis, kind, cmds), m, acc in zip(bangles, emitted, bmodel, baccepted):
         res.evaluations += 1
-        inp = {"axis": axis, "angle": a, "angle_hex": _hex(a)}
-        k2, spec = H.real_spec(a, 1e-4)
+        inp = {"call": "q.rot_%s(angle=a)" % axis, "angle": a, "angle_hex": _hex(a), "tol": tol0}
         if kind == "raise":
-            res.count("builder-raises:" + rots)
-            res.failures.append({"what": "q.rot_%s(angle=...) raises %s" % (axis, rots), "kf": None, "input": inp})
+            res.count("builder-raises:" + cmds)
+            res.failures.append({"what": "q.rot_%s(angle=...) raises %s" % (axis, cmds), "kf": None, "input": inp})
+            res.disagreements.append({"stream": "angle.emit", "input": inp, "model": m.get("cmds"),
+                                      "code": "raise " + cmds})
             continue
+        rots = [(c[3], c[4]) for c in cmds if c[0] == "rot"]
         res.count("builder-rotations:%d" % len(rots))
         if rots:
             res.nontrivial.add(("builder", axis, _hex(a)))
-        if k2 != "ok" or [tuple(p) for p in rots] != spec:
-            res.failures.append({"what": "builder does not emit one rotation per step of the angle spec", "kf": None,
-                                 "input": {**inp, "rotations": [list(p) for p in rots], "spec": repr(spec)}})
-        else:
-            bad = H.oracle(a, 1e-4, [tuple(p) for p in rots])
-            if bad:
-                res.failures.append({"what": "builder rotations: " + bad, "kf": None,
-                                     "input": {**inp, "rotations": [list(p) for p in rots]}})
+        if m.get("cmds") != cmds:
+            # same shape (set Q0 vq; rot) around an accepted neighbouring-exponent run is still the model
+            shape_ok = len(cmds) == 2 * len(rots) and all(
+                cmds[2 * i] == ["set", 0, fb.vq] and cmds[2 * i + 1][:3] == ["rot", H.AXES.index(axis), 0]
+                for i in range(len(rots)))
+            if shape_ok and acc.get("ok"):
+                res.count("builder-neighbouring-exponent-run")
+            else:
+                res.disagreements.append({"stream": "angle.emit (emitted commands vs model emitSpec)", "input": inp,
+                                          "model": m.get("cmds"), "code": cmds})
+        bad = H.oracle(a, tol0, rots)
+        if bad:
+            res.failures.append({"what": "emitted by the builder: " + bad, "kf": None,
+                                 "input": {**inp, "emitted": [list(p) for p in rots]}})
+    # ---- full path (flush, serialise, deserialise) for a few: the instructions carry the same operands
+    n_b = 120 if ctx.thorough else 30
+    bcases = [("X", 0.3), ("Z", -1e-20), ("Y", 2e-4), ("X", 2 * math.pi), ("Z", 0.0), ("Y", 1.0002e-4)]
+    while len(bcases) < n_b:
+        bcases.append((rng.choice("XYZ"), rng.choice(bangles)))
+    for (axis, a), (kind, rots) in zip(bcases, H.builder_rotations(bcases)):
+        res.evaluations += 1
+        inp = {"axis": axis, "angle": a, "angle_hex": _hex(a), "path": "flush+serialise"}
+        if kind == "raise":
+            res.failures.append({"what": "q.rot_%s(angle=...) raises %s" % (axis, rots), "kf": None, "input": inp})
+            continue
+        bad = H.oracle(a, tol0, [tuple(p) for p in rots])
+        if bad:
+            res.failures.append({"what": "serialised rotations: " + bad, "kf": None,
+                                 "input": {**inp, "rotations": [list(p) for p in rots]}})
     return res
